@@ -68,14 +68,15 @@ def cfg_env(cfg, which=None, extra_truths=()):
               (F.sym("self.pre_eig"), False), (F.sym("self.h"), True), (F.sym("self.pc"), True)]
     truths += list(extra_truths)
     if which is not None:
-        signs["j"] = "-" if which == "addon" else ">=0"
+        signs["j"] = "-" if which == "addon" else "+"        # documented domain: send(i, f) with 1 <= i, send(-1, f)
     return env, Facts(truths=truths, signs=signs)
 
 
 class Canon:
     """reference hook of a generator body: which array, which partition, which column (by value)"""
 
-    def __init__(self, fn, cfg, mode):
+    def __init__(self, fn, cfg, mode, which=None):
+        self.which = which
         names = [a.arg for a in fn.args.args]
         self.root = {names[1]: "d", names[2]: "v", "self._force": "force", "F1all": "f1"}
         if mode == "E":
@@ -102,14 +103,17 @@ class Canon:
             return None
         if is_all(col):
             return "all"
+        if col.is_const() and col.const_value() == 0:
+            return "0"
+        if self.which == "addon":
+            # an add-on (j < 0) works on the step solved last: the column is the index the earlier send left behind, never the sent j
+            if (symname(col) or "").startswith("carry:"):
+                self.index_vars.add(symname(col)[6:])
+                return "cur"
+            return None
         if col.equals(J - 1):
             return "prev"
         if col.equals(J):
-            return "cur"
-        if col.is_const() and col.const_value() == 0:
-            return "0"
-        if (symname(col) or "").startswith("carry:"):
-            self.index_vars.add(symname(col)[6:])
             return "cur"
         return None
 
@@ -167,10 +171,10 @@ def _inline(ctx, kind):
     return cache[kind]
 
 
-def run_arm(ctx, kind, cfg, which, carry=None, generic=(), generic_prefix=None, sided=False):
+def run_arm(ctx, kind, cfg, which, carry=None, generic=(), generic_prefix=None, sided=False, two_steps=False):
     """evaluate generator `kind` for the configuration and the kind of send; memoised per run"""
     key = (kind, tuple(sorted((k, str(v)) for k, v in cfg.items())), which, tuple(sorted((k, repr(v)) for k, v in (carry or {}).items())),
-           tuple(sorted(generic)), generic_prefix, sided)
+           tuple(sorted(generic)), generic_prefix, sided, two_steps)
     cache = ctx.__dict__.setdefault("_c08_arms", {})
     if key in cache:
         r = cache[key]
@@ -182,7 +186,10 @@ def run_arm(ctx, kind, cfg, which, carry=None, generic=(), generic_prefix=None, 
     env, facts = cfg_env(cfg, which)
     facts.generic = set(generic)
     facts.generic_prefix = generic_prefix
-    canon = Canon(fn, cfg, mode)
+    # a message can only be sent when there are at least two time steps: columns of the displacement array
+    facts.ge2 = [F.fn("ref", F.sym(fn.args.args[1].arg + ".shape"), F.const(1), G.ALLM)]
+    facts.ge2_exact = two_steps
+    canon = Canon(fn, cfg, mode, which)
     ev = GenEval(ctx, fn, env=env, facts=facts, inline=_inline(ctx, kind), refhook=canon, carry=carry, sided=sided)
     try:
         ev.run(fn.body)
@@ -335,6 +342,26 @@ def r1_carried_state(ctx):
             ctx.check(ok, f"{tag}: the only state that survives from one send to the next is the step index"
                           + (" plus one cached force and the step it was computed for" if want_cache else ""), lp,
                       {"carried": {k: sorted(v) for k, v in roles.items()}}, nontrivial=first)
+            py = [a for a in arms if a.ev.prime_yields]
+            my = [a for a in arms if a.ev.maybe_prime]
+            if my and not py:
+                # undecided for "two or more time steps": does the smallest case (exactly two steps, one send possible) park the body?
+                try:
+                    two = run_arm(ctx, kind, cfg, "pos", generic_prefix="carry:", two_steps=True)
+                except Unsupported:
+                    two = None
+                if two is not None and two.ev.prime_yields:
+                    py = [two]
+            if py:
+                ctx.fail(f"{tag}: with two or more time steps the first yield the body reaches is the receiving one (generator() primes the "
+                         "body once; a yield before the loop swallows the first send)", py[0].ev.prime_yields[0],
+                         {"test": ast.unparse(getattr(G.parent_if(py[0].ev.prime_yields[0]), "test", ast.Constant(None)))})
+            elif my:
+                ctx.error(f"{tag}: a `yield` before the generator loop sits under a test that is not decided for two or more time steps", my[0].ev.maybe_prime[0],
+                          ast.unparse(my[0].ev.maybe_prime[0].test))
+            else:
+                ctx.ok(f"{tag}: with two or more time steps the first yield the body reaches is the receiving one (generator() primes the "
+                       "body once; a yield before the loop would swallow the first send)", lp, nontrivial=first)
             if len(index) != 1:
                 continue
             pos, addon = arms[0], arms[1]
@@ -716,7 +743,12 @@ def r2_step_equals_batch(ctx):
 
 # ---------------------------------------------------------------------------------------------------------------- add-on == f1-linear part
 def _inc(cell):
-    if cell is None or not _good(cell["value"]) or not _good(cell["cur"]):
+    """what a store adds to the current content of its target (a plain assignment adds value - content, whatever the content is)"""
+    if cell is None or not _good(cell["value"]):
+        return None
+    if cell["cur"] is None:
+        return cell["value"] - F.sym("content of " + cell["text"])
+    if not _good(cell["cur"]):
         return None
     return cell["value"] - cell["cur"]
 
@@ -914,6 +946,10 @@ def r2c_complex_path(ctx):
                  ("elastic displacement", ("d", "kdof,1:"), ("d", "k")), ("elastic velocity", ("v", "kdof,1:"), ("v", "k"))]
         for what, bk, gk in pairs:
             bv, gv = b.get(bk), g.value(*gk)
+            if gv is None and _good(bv):
+                ctx.fail(f"_solve_complex_unc_generator ({tag}): a positive send stores the batch {what} step computed from column i-1", lp,
+                         {"generator": "no store into column i of that partition", "stores": sorted({c["text"] for c in g.cells})})
+                continue
             if not _good(bv) or not _good(gv):
                 ctx.error(f"complex path ({tag}): {what} not lowered", bfn, {"batch": repr(bv), "generator": repr(gv)})
                 continue
@@ -932,6 +968,11 @@ def r2c_complex_path(ctx):
         ok = _eq(gv, IKRF * F1RF)
         ctx.check(ok, f"_solve_complex_unc_generator ({tag}): residual-flexibility displacement of step i is K_rf^-1 F1[rf]", lp,
                   None if ok else repr(gv))
+        a0 = [c for c in g.pre_cells if c["key"] == ("a", "rb", "0")]
+        gv = g.value("a", "rb")
+        ok = len(a0) == 1 and _good(gv) and _eq(a0[0]["value"], gv.subs({"f1rb": refsym("f0p", "rb", "all")}))
+        ctx.check(ok, f"_solve_complex_unc_generator ({tag}): the rigid-body acceleration of step 0 is M_rb^-1 F0[rb] (the batch value of column 0)",
+                  a0[0]["node"] if a0 else lp, None if ok else [repr(c["value"]) for c in a0])
         c = _force_cell(g)
         ok = c is not None and _eq(c["value"], F1ALL)
         ctx.check(ok, f"_solve_complex_unc_generator ({tag}): a positive send replaces the stored force of step i by the sent force", lp,
@@ -969,8 +1010,13 @@ def eval_f2x(ctx, rel, qual, cfg, velo, kind, sided=False):
     ev = GenEval(ctx, fn, env=env, facts=facts, inline=_inline(ctx, kind), refhook=F2xCanon(names[1]), sided=sided, strict=True)
     ev.run(fn.body)
     if not ev.returns:
+        if any(e[0] == "raise" for e in ev.events):
+            return RAISES, fn
         raise Unsupported(f"{qual}: no return reached in configuration {cfg}")
     return ev.returns[-1][0], fn
+
+
+RAISES = Unknown("the function raises in this configuration")
 
 
 def r3c_complex_addon(ctx):
@@ -997,6 +1043,10 @@ def r3c_complex_addon(ctx):
                 continue
             p_ = pos.value(*key)
             inc = _inc(a)
+            if a is None and _good(p_):
+                ctx.fail(f"_solve_complex_unc_generator ({tag}): an add-on send adds exactly the f1-linear part of the {what} update", lp,
+                         {"add-on": "no store into column i of that partition", "stores": sorted({c["text"] for c in add.cells})})
+                continue
             if inc is None or not _good(p_):
                 ctx.error(f"complex generator add-on ({tag}): {what} not lowered", lp, {"addon": repr(a["value"]) if a else None, "pos": repr(p_)})
                 continue
@@ -1016,24 +1066,26 @@ def r3c_complex_addon(ctx):
         ok = inc is not None and inc.equals(F1ALL)
         ctx.check(ok, f"_solve_complex_unc_generator ({tag}): an add-on send accumulates into the stored force of step i", lp, None if ok else repr(inc))
     # get_f2x, complex path
-    for mass in (None, "unc", "coupled"):
-        for velo in (True, False):
-            cfg = {"order": 1, "m": mass, "real": True, "rb": True, "k": True, "rf": False, "unc": mass != "coupled"}
-            tag = f"m {mass or 'None'}, {'velocity' if velo else 'displacement'}"
+    for mass, velo, rf in [(m_, v_, r_) for m_ in (None, "unc", "coupled") for v_ in (True, False) for r_ in (False, True)]:
+        if True:
+            cfg = {"order": 1, "m": mass, "real": True, "rb": True, "k": True, "rf": rf, "unc": mass != "coupled"}
+            tag = f"m {mass or 'None'}, {'velocity' if velo else 'displacement'}, rf {'yes' if rf else 'no'}"
             try:
-                got, fn0 = eval_f2x(ctx, UNC, "SolveUnc._get_f2x_complex_unc", cfg, velo, "complex")
-                pos = run_arm(ctx, "complex", dict(cfg, rf=True), "pos", generic_prefix="carry:")
+                got, fn0 = eval_f2x(ctx, UNC, "SolveUnc._get_f2x_complex_unc", cfg, velo, "complex", sided=True)
+                pos = run_arm(ctx, "complex", dict(cfg, rf=True), "pos", generic_prefix="carry:", sided=True)
             except Unsupported as e:
                 ctx.error(f"_get_f2x_complex_unc ({tag}): not lowered", None, str(e))
                 continue
-            el, rb = pos.value("v" if velo else "d", "k"), pos.value("v" if velo else "d", "rb")
-            if not _good(got) or not _good(el) or not _good(rb):
+            el, rb, rfv = pos.value("v" if velo else "d", "k"), pos.value("v" if velo else "d", "rb"), pos.value("d", "rf")
+            if not _good(got) or not _good(el) or not _good(rb) or not _good(rfv):
                 ctx.error(f"_get_f2x_complex_unc ({tag}): not lowered", fn0, repr(got))
                 continue
             # unit add-on force through phi^T: f1 -> phik^T, f1rb -> phir^T; response recovered with phik / phir
-            el = el.subs(zero).subs({"f1": F.sym("phik")})
-            rb = rb.subs(zero).subs({"f1rb": F.sym("phir")})
+            el = el.subs(zero).subs({"f1": F.fn("T", F.sym("phik"))})
+            rb = rb.subs(zero).subs({"f1rb": F.fn("T", F.sym("phir"))})
             want = F.sym("phik") * el + F.sym("phir") * rb
+            if rf and not velo:
+                want = want + F.sym("phirf") * rfv.subs({"f1rf": F.fn("T", F.sym("phirf"))})
             ok = got.equals(want)
             ctx.check(ok, f"_get_f2x_complex_unc ({tag}): flexibility = phi_k (d update/d f1) phi_k^T + phi_rb (d update/d f1) phi_rb^T of the "
                           "complex generator's first-order step", fn0, None if ok else {"got": repr(got), "want": repr(want)})
@@ -1060,6 +1112,9 @@ def r4_get_f2x(ctx):
                     ctx.error(tag, None, str(e))
                     continue
                 upd = _u(pos.value("v" if velo else "d", "k"), gcfg)
+                if flex is RAISES:
+                    ctx.fail(f"{tag}: returns the flexibility for real equations of motion", fn, "raises instead")
+                    continue
                 if not _good(flex) or not _good(upd):
                     ctx.error(tag, fn, f"{flex} {upd}")
                     continue
@@ -1095,6 +1150,9 @@ def r4_get_f2x(ctx):
                     ctx.error(tag, None, str(e))
                     continue
                 inc = _u(_inc(add.cell("v" if velo else "d", "k")), gcfg)
+                if flex is RAISES:
+                    ctx.fail(f"{tag}: returns the flexibility for real equations of motion", fn, "raises instead")
+                    continue
                 if not _good(flex) or inc is None:
                     ctx.error(tag, fn, f"{flex} {inc}")
                     continue
@@ -1176,6 +1234,12 @@ def r5_typestate(ctx):
                       None if ok else {a: repr(v) for a, v in zip(GEN_STATE, st)})
             if not ok:
                 continue
+            pub = [a.arg for a in fn.args.args[1:]]
+            part = ctx.src.func(BASE, "_BaseODE._init_dva_part")
+            placed = sem.place(sc[1], sc[2], [a.arg for a in part.args.args[1:]])
+            okp = all(_eq(placed.get(nm), F.sym(nm)) for nm in pub) and set(placed) <= set(pub)
+            ctx.check(okp, f"{tag}: nt, F0, d0, v0, static_ic reach _init_dva_part under their own names (as they reach _init_dva in the batch solver)", fn,
+                      None if okp else {k: repr(v) for k, v in placed.items()})
             kinds = [(k, e) for k, e in enumerate(ev.events)]
             last_pub = max((k for k, e in kinds if e[0] == "setattr" and e[1] in GEN_STATE), default=-1)
             gcalls = [(k, e) for k, e in kinds if e[0] == "call" and e[1].startswith("self._solve_") and e[1].endswith(("_generator", "_generator_cdforces"))]
@@ -1193,6 +1257,21 @@ def r5_typestate(ctx):
             okr = isinstance(r, tuple) and len(r) == 3 and _good(r[0]) and (sem.split_call(r[0]) or ("",))[0] == gname and _eq(r[1], st[0]) and _eq(r[2], st[1])
             ctx.check(okr, f"{tag}: returns (generator, d, v) - the arrays the generator updates are the ones the caller watches", fn,
                       None if okr else repr(r))
+    # SolveCDF.generator only forwards to SolveUnc.generator
+    try:
+        ev, fn = _eval_plain(ctx, CDF, "SolveCDF.generator", {"unc": True, "real": True, "cdf": True, "m": "unc"}, "real", inline={})
+        r = ev.returns[-1][0] if ev.returns else None
+        sc = sem.split_call(r) if _good(r) else None
+        base = ctx.src.func(UNC, "SolveUnc.generator")
+        ok = sc is not None and sc[0] == ".generator" and len(sc[1]) >= 1 and (sem.split_call(sc[1][0]) or ("",))[0] == "super"
+        if ok:
+            placed = sem.place(sc[1][1:], sc[2], [a.arg for a in base.args.args[1:]])
+            pub = [a.arg for a in fn.args.args[1:]]
+            ok = all(_eq(placed.get(nm), F.sym(nm)) for nm in pub) and set(placed) <= set(pub)
+        ctx.check(ok, "SolveCDF.generator: forwards nt, F0, d0, v0, static_ic to SolveUnc.generator under their own names and returns its result", fn,
+                  None if ok else repr(r))
+    except (Unsupported, AnchorError) as e:
+        ctx.error("SolveCDF.generator: forwarding", None, str(e))
     # finalize
     for get_force in (False, True):
         try:
@@ -1275,6 +1354,12 @@ def r5_typestate(ctx):
             ok = zero and len(cells) == 1 and is_all(cells[0]["rows"]) and _good(cells[0]["col"]) and cells[0]["col"].is_zero() and _eq(cells[0]["value"], f0)
         ctx.check(ok, f"{tag}: the force history starts as zeros with column 0 = F0", fn, None if ok else repr(r))
         if isinstance(r, tuple) and len(r) == 4:
+            for k, nm, what in ((0, fn.args.args[3].arg, "displacement"), (1, fn.args.args[4].arg, "velocity")):
+                cells = [c for c in ev.gcells if c["root"] is not None and _eq(c["root"], r[k]) and symname(c["rows"]) == "self.nonrf"]
+                ok = len(cells) == 1 and _good(cells[0]["col"]) and cells[0]["col"].is_zero() and \
+                    _eq(cells[0]["value"], F.fn("ref", F.sym(nm), F.sym("self.nonrf"), G.ALLM))
+                ctx.check(ok, f"{tag}: a given initial {what} lands in column 0 of the {what} array (non-rf equations), as in the batch solver", fn,
+                          None if ok else [(c["text"], repr(c["value"])) for c in cells])
             cells = [c for c in ev.gcells if c["root"] is not None and _eq(c["root"], r[0]) and symname(c["rows"]) == "self.rf"]
             ok = len(cells) == 1 and _good(cells[0]["col"]) and cells[0]["col"].is_zero() and \
                 _eq(cells[0]["value"], IKRF * F.fn("ref", f0, F.sym("self.rf"), G.ALLM))
